@@ -123,6 +123,27 @@ func runOps(prop, tier, replay string) {
 			run.Sample(map[string]any{"expression": p.text(), "go": s.String(), "builder": g.String()})
 		}
 	})
+	// statement level: define / assign / var / return over single, multi-value and comma-ok right-hand sides; constant blocks
+	nd := 0
+	st2, tr2, pts2 := declsRun(run, func(p dPoint, s, g dOutcome) {
+		run.Eval(p.Family + ":" + p.describe())
+		for _, f := range declsClassify(p, s, g) {
+			if f.Prop == prop {
+				run.Fail(f.Key, f.What, map[string]any{"family": p.Family, "statement": p.describe()})
+			}
+		}
+		nd++
+		if nd == 700 {
+			run.Sample(map[string]any{"statement": p.describe(), "go_accepts": s.Ok, "builder_accepts": g.Ok, "declared_types": s.Types})
+		}
+	})
+	states, transitions, points = states+st2, transitions+tr2, points+pts2
+	if prop == "C03" { // member result types and recorder notifications (engine of C08)
+		n := selectForC03(run)
+		points += n
+		run.Set("selector_lookups", n)
+	}
+	run.Set("statement_points", pts2)
 	run.Set("states", states)
 	run.Set("transitions", transitions)
 	run.Set("traces_validated_against_impl", points)
